@@ -438,6 +438,53 @@ def _r6(ctx):
                   "the value accumulation happens before the rename overwrites it", f.qname, "order rename/add")
 
 
+def _r7(ctx):
+    ctx.rule("R7", "the change reported for a written register is the state of the operand that is written")
+    f = ctx.func("ISASemantics.get_reg_changes")
+    # change_dict = {reg: STATE.get(MAP.get(reg)) for reg in <written register names>}
+    res = [(n, b) for n in ast.walk(f.node) for b in [pm.match("{M_r: M_state.get(M_map.get(M_r)) for M_r in M_dests}", n)] if b is not None]
+    if len(res) != 1:
+        ctx.unknown("R7", "result of get_reg_changes", f.where(), "the result is not built as {reg: state.get(map.get(reg)) for reg in dests}")
+        return
+    mp = U(res[0][1]["M_map"])
+    stores = [n for n in ast.walk(f.node) if isinstance(n, ast.Assign) and isinstance(n.targets[0], ast.Subscript)
+              and U(n.targets[0].value) == mp]
+    n_loop = 0
+    for st in stores:
+        loops = [lp for lp in C.enclosing_loops(st) if isinstance(lp, ast.For)]
+        if not loops:
+            continue            # the pre-index case writes one fixed entry
+        n_loop += 1
+        it = U(loops[0].iter)
+        key = U(st.targets[0].slice)
+        over_all = "instruction_form.operands" in it and "semantic_operands" not in it
+        guards = [(U(e), pol) for e, pol in C.facts_at(st, stop=loops[0])]
+        guards = [(t, pol) for t, pol in guards if "isinstance(" not in t or mp in t or "semantic_operands" in t]
+        first_wins = any(pol and t == "%s not in %s" % (key, mp) for t, pol in guards) or any(
+            (not pol) and t == "%s in %s" % (key, mp) for t, pol in guards)
+        dest_wins = any(pol and ("%s not in %s" % (key, mp)) in t and " or " in t and "semantic_operands" in t
+                        and (" is " in t or " in " in t.split(" or ", 1)[1]) for t, pol in guards)
+        relevant = [g for g in guards if mp in g[0] or "semantic_operands" in g[0]]
+        if not over_all:
+            ctx.judge("semantic_operands" in it, "semantic_operands" in it, "R7", "name -> operand map filled from %s" % it[:60], f.where(st),
+                      "", f.qname, "map fill")
+        elif dest_wins:
+            ctx.ok("R7", "a register named twice maps to the operand that is written", f.where(st))
+        elif not relevant:
+            ctx.bad("R7", "name -> operand map: last operand naming a register wins", f.where(st),
+                    "`%s` runs for every register operand in written order, so for a register named twice the LAST operand's state "
+                    "is reported, whether or not it is the one written: AArch64 `add x0, x0, #8` (destination first) reports the "
+                    "source operand's unchanged state {x0: +0} instead of {x0: +8}; a following load from [x0] is then compared "
+                    "with an earlier store to [x0] as if the base had not moved - a store-to-load dependency is invented for "
+                    "`str x1,[x0]; add x0,x0,#8; ldr x2,[x0]` and missed for `str x1,[x0,#8]; add x0,x0,#8; ldr x2,[x0]`"
+                    % U(st), f.qname, "map overwrite " + U(st), f.module.excerpt(st))
+        else:
+            ctx.unknown("R7", "name -> operand map fill", f.where(st),
+                        "the store `%s` is guarded by %s%s; whether the written operand wins for a register named twice is not "
+                        "recognised" % (U(st), [t for t, _ in relevant][:2], " (first operand wins: right for AArch64 only)" if first_wins else ""))
+    ctx.floor("R7", "stores into the name -> operand map inside the operand loop", n_loop, 1)
+
+
 class _Snip:
     """Symbolic effect of an `operation` snippet: per operand, value terms and name source."""
 
@@ -610,4 +657,5 @@ def run(ctx):
     _r3_r4(ctx)
     _r5(ctx)
     _r6(ctx)
+    _r7(ctx)
     _d1(ctx)
